@@ -225,18 +225,47 @@ class MUnit(vcgen.Unit):
             self.ev.ev(args[0], st)
             v = self.ev.ev(args[1], st)
             if v.k == "ptr" and not str(v.arr).startswith("&"):      # &local: a by-value copy, not the caller's buffer
-                tag = getattr(st, "swaps", None)
-                tag = dict(tag) if tag else {}
-                cur = tag.get(v.arr)
-                if cur is None:
-                    tag[v.arr] = name
-                elif cur == name:
-                    tag.pop(v.arr)
-                else:
-                    tag[v.arr] = "corrupt(%s then %s)" % (cur, name)
-                st.swaps = tag
+                own = "@g" in str(v.arr)          # the object's own (reallocatable) buffer: swapping what was just written is intended
+                if not own:
+                    tag = getattr(st, "swaps", None)
+                    tag = dict(tag) if tag else {}
+                    cur = tag.get(v.arr)
+                    if cur is None:
+                        tag[v.arr] = name
+                    elif cur == name:
+                        tag.pop(v.arr)
+                    else:
+                        tag[v.arr] = "corrupt(%s then %s)" % (cur, name)
+                    st.swaps = tag
                 if v.arr in st.arrs:
-                    st.arrs[v.arr] = self.ev.fresh(v.arr + "_swapped", self.ev.arr_sort(v.arr))
+                    # elements from the pointer's offset on are rewritten; what lies before is untouched
+                    old_arr = st.arrs[v.arr]
+                    new_arr = self.ev.fresh(str(v.arr).replace("@", "_") + "_swapped", self.ev.arr_sort(v.arr))
+                    q = z3.Int("q?swap")
+                    st.assume(z3.ForAll([q], z3.Implies(q < v.t, z3.Select(new_arr, q) == z3.Select(old_arr, q))))
+                    st.arrs[v.arr] = new_arr
+            return Val(IV(0), "opaque")
+        if name == "memcpy" and len(args) == 3:
+            d = self.ev.ev(args[0], st)
+            nbytes = None
+            for i_, a in enumerate(args[1:]):
+                try:
+                    v_ = self.ev.ev(a, st)
+                    if i_ == 1 and v_.k == "int":
+                        nbytes = v_.t
+                except EvalError:
+                    pass
+            if d.k == "ptr" and d.arr in st.arrs:
+                ext = self.ev.extents.get(d.arr)
+                esz = {"i8": 1, "u8": 1, "bool": 1, "i16": 2, "u16": 2, "i32": 4, "u32": 4, "f32": 4}.get(self.ev.elem.get(d.arr), 8)
+                if ext is not None and nbytes is not None and d.arr not in getattr(self.ev, "unchecked", ()):
+                    self.ev.oblige("S.memcpy", z3.And(d.t >= 0, nbytes >= 0, d.t * esz + nbytes <= ext * esz), st,
+                                   "memcpy destination %s[%s ...] + %s bytes stays inside the buffer" % (d.arr.split("@")[0], d.t, nbytes))
+                old_arr = st.arrs[d.arr]
+                new_arr = self.ev.fresh(str(d.arr).replace("@", "_") + "_copied", self.ev.arr_sort(d.arr))
+                q = z3.Int("q?memcpy")
+                st.assume(z3.ForAll([q], z3.Implies(q < d.t, z3.Select(new_arr, q) == z3.Select(old_arr, q))))
+                st.arrs[d.arr] = new_arr
             return Val(IV(0), "opaque")
         if name == "handle_error":
             # util::handle_error(failure(...), ...) throws: the path ends here (exit kind "throw")
